@@ -668,4 +668,234 @@ theorem run_headerMissing (orc : Oracles) (c : Cfg) (sources : List Source) (wOu
   simp only [run, hb, sinkStart_headerMissing p wOut hh]
   exact ⟨trivial, trivial, trivial⟩
 
+/-! ### G: corollaries -/
+
+/-- the pipeline of the default configuration: no stage, one-line JSON rows -/
+def defaultPipeline : Pipeline :=
+  { cfgs := [], sts := [], sink := .json {} ['\n'], sinkLen := 0, titles := [] }
+
+theorem build_default (orc : Oracles) : build orc {} = .ok defaultPipeline := rfl
+
+theorem utf8_nl : utf8 ['\n'] = [10] := by decide
+
+/-- the rows the read loop makes carry no selection yet -/
+theorem ctxsOf_results (c : Cfg) (fuel : Nat) (r : Reader) (inFile idx : Nat) :
+    ∀ ctx ∈ ctxsOf c fuel r inFile idx, ctx.results = [] := by
+  induction fuel generalizing r inFile idx with
+  | zero => intro ctx h; cases h
+  | succ fuel ih =>
+    intro ctx h
+    unfold ctxsOf at h
+    split at h
+    · split at h
+      · exact ih _ _ _ ctx h
+      · rcases List.mem_cons.mp h with rfl | h
+        · rfl
+        · exact ih _ _ _ ctx h
+    · cases h
+    · split at h
+      · exact ih _ _ _ ctx h
+      · cases h
+
+theorem ctxsOfSources_results (c : Cfg) (sources : List Source) (idx : Nat) :
+    ∀ ctx ∈ ctxsOfSources c sources idx, ctx.results = [] := by
+  induction sources generalizing idx with
+  | nil => intro ctx h; cases h
+  | cons src rest ih =>
+    intro ctx h
+    unfold ctxsOfSources at h
+    rcases List.mem_append.mp h with h | h
+    · exact ctxsOf_results _ _ _ _ _ ctx h
+    · exact ih _ ctx h
+
+theorem build_of_results_nil {ctx : Ctx} (h : ctx.results = []) : ctx.build = ctx.input := by
+  simp [Ctx.build, h]
+
+theorem flatMap_congr' {α β} {l : List α} {f g : α → List β} (h : ∀ a ∈ l, f a = g a) :
+    l.flatMap f = l.flatMap g := by
+  induction l with
+  | nil => rfl
+  | cons x l ih =>
+    simp only [List.flatMap_cons]
+    rw [h x List.mem_cons_self, ih (fun a ha => h a (List.mem_cons_of_mem _ ha))]
+
+/-- C01 `default_rows`: without options every value read is written back as one one-line JSON row, in
+input order, and nothing else is written -/
+theorem default_rows (orc : Oracles) (sources : List Source) (wOut wErr : Writer)
+    (hw : Unbounded wOut) (hcl : CleanIO sources) :
+    (run orc {} sources wOut wErr).result = .ok ()
+      ∧ (run orc {} sources wOut wErr).stdout
+          = wOut.out ++ (ctxsOfSources {} sources 0).flatMap
+              (fun ctx => utf8 (printJson {} ctx.input) ++ [10])
+      ∧ (run orc {} sources wOut wErr).stderr = wErr.out := by
+  obtain ⟨h1, h2, h3⟩ := run_ignore_spec orc {} sources wOut wErr defaultPipeline rfl (build_default orc)
+    (fun c hc => by cases hc) hw hcl (fun h => h)
+  refine ⟨h1, ?_, h3⟩
+  rw [h2]
+  have hh : headerBytes defaultPipeline = [] := rfl
+  rw [hh, List.append_nil]
+  congr 1
+  show (ctxsOfSources {} sources 0).flatMap (sinkBytes defaultPipeline.sink defaultPipeline.sinkLen) = _
+  apply flatMap_congr'
+  intro ctx hctx
+  simp only [defaultPipeline, sinkBytes,
+    build_of_results_nil (ctxsOfSources_results _ _ _ ctx hctx), rowBytes]
+  rw [utf8_nl]
+
+/-- the same for a single stream on stdin -/
+theorem default_rows_stdin (orc : Oracles) (items : List RItem) (wOut wErr : Writer)
+    (hw : Unbounded wOut) (hcl : ∀ it ∈ items, it ≠ RItem.err) :
+    (run orc {} [⟨none, items⟩] wOut wErr).result = .ok ()
+      ∧ (run orc {} [⟨none, items⟩] wOut wErr).stdout
+          = wOut.out ++ (ctxsOf {} (items.length + 2) (Reader.ofItems items none) 0 0).flatMap
+              (fun ctx => utf8 (printJson {} ctx.input) ++ [10])
+      ∧ (run orc {} [⟨none, items⟩] wOut wErr).stderr = wErr.out := by
+  have hcl' : CleanIO [⟨none, items⟩] := by
+    intro s hs
+    simp only [List.mem_singleton] at hs
+    subst hs
+    exact hcl
+  have := default_rows orc [⟨none, items⟩] wOut wErr hw hcl'
+  simpa [ctxsOfSources] using this
+
+/-- C06 `policy_stderr_same_rows`: under policy `stderr` (stderr never failing either) stdout is
+exactly what it is under `ignore`; the reports of the recoverable errors go to stderr only -/
+theorem policy_stderr_same_rows (orc : Oracles) (c : Cfg) (sources : List Source) (wOut wErr : Writer)
+    (p : Pipeline) (hpol : c.onError = .stderr) (hb : build orc c = .ok p)
+    (hna : NoAbort orc p.cfgs) (hw : Unbounded wOut) (he : Unbounded wErr) (hcl : CleanIO sources)
+    (hh : ¬ HeaderMissing p) :
+    (run orc c sources wOut wErr).result = .ok ()
+      ∧ (run orc c sources wOut wErr).stdout
+          = wOut.out ++ headerBytes p ++
+            (specRows (evalT orc) p.cfgs p.sts (ctxsOfSources c sources 0)).flatMap (sinkBytes p.sink p.sinkLen)
+      ∧ (run orc c sources wOut wErr).stderr
+          = wErr.out ++ (errsOfSources (evalT orc) c p.cfgs sources 0 p.sts).flatMap reportBytes := by
+  obtain ⟨hi, hg, -, -⟩ := build_initial orc c p hb
+  obtain ⟨h1, h2, h3⟩ := run_spec_gen orc c sources wOut wErr p (.inr hpol) hb hi hg hna hw
+    (fun _ => he) hcl hh
+  refine ⟨h1, h2, ?_⟩
+  rw [h3]
+  simp [errW, hpol, wappend_out]
+
+/-- C17 `concat_sources`: the rows of several sources are the rows of the first, then the rows of the
+others with the run index going on -/
+theorem concat_sources (c : Cfg) (s1 : Source) (rest : List Source) (idx : Nat) :
+    ctxsOfSources c (s1 :: rest) idx
+      = ctxsOf c (s1.items.length + 2) (Reader.ofItems s1.items s1.name) 0 idx
+        ++ ctxsOfSources c rest
+            (idx + (ctxsOf c (s1.items.length + 2) (Reader.ofItems s1.items s1.name) 0 idx).length) := rfl
+
+/-- the `k`-th row of one source carries run index `idx + k` and index-in-file `inFile + k` -/
+theorem ctxsOf_index (c : Cfg) (fuel : Nat) (r : Reader) (inFile idx k : Nat) (ctx : Ctx)
+    (h : (ctxsOf c fuel r inFile idx)[k]? = some ctx) :
+    ctx.ictx.map (·.index) = some (idx + k) ∧ ctx.ictx.map (·.fileIndex) = some (inFile + k) := by
+  induction fuel generalizing r inFile idx k with
+  | zero => simp [ctxsOf] at h
+  | succ fuel ih =>
+    unfold ctxsOf at h
+    split at h
+    · split at h
+      · exact ih _ _ _ _ h
+      · cases k with
+        | zero =>
+          simp only [List.getElem?_cons_zero, Option.some.injEq] at h
+          subst h
+          exact ⟨rfl, rfl⟩
+        | succ k =>
+          simp only [List.getElem?_cons_succ] at h
+          obtain ⟨h1, h2⟩ := ih _ _ _ _ h
+          exact ⟨by rw [h1]; congr 1; omega, by rw [h2]; congr 1; omega⟩
+    · simp at h
+    · split at h
+      · exact ih _ _ _ _ h
+      · simp at h
+
+/-- the index-in-file restarts at 0 in every source -/
+theorem fileIndex_restarts (c : Cfg) (src : Source) (idx k : Nat) (ctx : Ctx)
+    (h : (ctxsOf c (src.items.length + 2) (Reader.ofItems src.items src.name) 0 idx)[k]? = some ctx) :
+    ctx.ictx.map (·.fileIndex) = some k := by
+  have := (ctxsOf_index c _ _ 0 idx k ctx h).2
+  simpa using this
+
+theorem ctxsOfSources_index (c : Cfg) (sources : List Source) (idx k : Nat) (ctx : Ctx)
+    (h : (ctxsOfSources c sources idx)[k]? = some ctx) : ctx.ictx.map (·.index) = some (idx + k) := by
+  induction sources generalizing idx k with
+  | nil => simp [ctxsOfSources] at h
+  | cons src rest ih =>
+    rw [concat_sources, List.getElem?_append] at h
+    split at h
+    · exact (ctxsOf_index c _ _ 0 idx k ctx h).1
+    · rename_i hk
+      rw [ih _ _ h]
+      congr 1
+      omega
+
+/-- C17 `index_exact`: the `k`-th row of a run carries `index = k` -/
+theorem index_exact (c : Cfg) (sources : List Source) (k : Nat) (ctx : Ctx)
+    (h : (ctxsOfSources c sources 0)[k]? = some ctx) : ctx.ictx.map (·.index) = some k := by
+  simpa using ctxsOfSources_index c sources 0 k ctx h
+
+/-! ### non-vacuity -/
+
+theorem cleanInput_clean (bs : List Byte) : ∀ it ∈ cleanInput bs, it ≠ RItem.err := by
+  intro it h
+  obtain ⟨b, -, rfl⟩ := List.mem_map.mp h
+  intro h'; cases h'
+
+/-- sources made of plain bytes have no I/O error -/
+theorem cleanIO_of_bytes (l : List (Option Str × List Byte)) :
+    CleanIO (l.map (fun x => ⟨x.1, cleanInput x.2⟩)) := by
+  intro s hs
+  obtain ⟨x, -, rfl⟩ := List.mem_map.mp hs
+  exact cleanInput_clean _
+
+example : build {} {} = .ok defaultPipeline := rfl
+
+example : CleanIO [⟨none, cleanInput [49, 10, 50]⟩] := cleanIO_of_bytes [(none, [49, 10, 50])]
+
+example : Unbounded {} := ⟨rfl, rfl⟩
+
+/-- the two values `1` and `2` on stdin come out as two lines -/
+example (orc : Oracles) :
+    (run orc {} [⟨none, cleanInput [49, 10, 50]⟩] {} {}).stdout = [49, 10, 50, 10] := by
+  have h := (default_rows_stdin orc (cleanInput [49, 10, 50]) {} {} ⟨rfl, rfl⟩ (cleanInput_clean _)).2.1
+  rw [h]
+  decide
+
+
+/-- a configuration with a filter, a selection, a sorter and a window: `-f .b -s .a -o .a --skip 1 -t 2` -/
+def exampleCfg : Cfg :=
+  { selects := [".a".toList], filter := some ".b".toList, sorts := [".a".toList], skip := 1, take := some 2 }
+
+def examplePipeline : Pipeline :=
+  { cfgs := [.filter (.extract 0 [Jawk.Step.key "b".toList]),
+             .select ".a".toList (.extract 0 [Jawk.Step.key "a".toList]),
+             .sort (.extract 0 [Jawk.Step.key "a".toList]) false,
+             .limit 1 (some 2)],
+    sts := [.none, .none, .sort [] (some 3), .limit 0 0],
+    sink := .json {} ['\n'], sinkLen := 1, titles := [".a".toList] }
+
+theorem build_example (orc : Oracles) : build orc exampleCfg = .ok examplePipeline := by
+  rfl
+
+theorem examplePipeline_noAbort (orc : Oracles) : NoAbort orc examplePipeline.cfgs := by
+  intro c hc e he ctx
+  simp only [examplePipeline, List.mem_cons, List.not_mem_nil, or_false] at hc
+  rcases hc with rfl | rfl | rfl | rfl <;>
+    simp only [stageExprs, List.mem_singleton, List.not_mem_nil] at he <;>
+    subst he <;> exact ⟨_, by simp only [evalFuel, eval]; rfl⟩
+
+/-- non-vacuity of `run_ignore_spec`: all hypotheses hold for `exampleCfg`, any clean sources -/
+example (orc : Oracles) (l : List (Option Str × List Byte)) :
+    let sources : List Source := l.map (fun x => ⟨x.1, cleanInput x.2⟩)
+    (run orc exampleCfg sources {} {}).result = .ok ()
+      ∧ (run orc exampleCfg sources {} {}).stdout
+          = (specRows (evalT orc) examplePipeline.cfgs examplePipeline.sts
+              (ctxsOfSources exampleCfg sources 0)).flatMap (sinkBytes examplePipeline.sink 1) := by
+  intro sources
+  obtain ⟨h1, h2, -⟩ := run_ignore_spec orc exampleCfg sources {} {} examplePipeline rfl (build_example orc)
+    (examplePipeline_noAbort orc) ⟨rfl, rfl⟩ (cleanIO_of_bytes l) (fun h => h)
+  exact ⟨h1, by simpa [headerBytes, examplePipeline] using h2⟩
+
+
 end Jawk.RunSpec
